@@ -5,6 +5,7 @@ calls (full, slice, sample, channel subsets, legal failing calls) over the frame
 logical files, mixed with raw record fetches on the same shared cursor.  Reused numpy storage,
 zero-length arrays of unselected channels and the file cursor are the state a history can upset.
 """
+import json
 import sys
 
 import numpy as np
@@ -34,7 +35,7 @@ ASSUMPTIONS = [
     'EFLR sub-language: every object carries all template attributes (value, count+value or absent); no invariant attributes, no redundant/replacement sets',
 ]
 PROBES = ['channels_object_reused', 'negative_step', 'partial_after_full_same_count', 'full_after_partial_same_count', 'sample_lt_n', 'step_gt1', 'subset_excl_last', 'subset_excl_middle', 'dim2',
-          'interleaved_types', 'after_failed_populate', 'fetch_between', 'subset_unknown_name', 'empty_iflr', 'multi_lf', 'frame_number_gap', 'record_spans_vrs', 'first_channel_is_array', 'first_channel_gt_260_bytes', 'two_indexes_interleaved']
+          'interleaved_types', 'after_failed_populate', 'fetch_between', 'subset_unknown_name', 'empty_iflr', 'multi_lf', 'frame_number_gap', 'record_spans_vrs', 'first_channel_is_array', 'first_channel_gt_260_bytes', 'two_indexes_interleaved', 'selector_object_reused', 'selector_reused_other_length']
 
 LogicalFile = Slice = ExceptionTotalDepth = None
 
@@ -93,6 +94,14 @@ def generate(seed, tier):
     model = DL.gen_model(rng, max_frames=rng.pick([6, 20, 60]), waves=rng.chance(0.3))
     # 'reuse_channels': the caller keeps ONE set object per frame array and edits it in place between calls
     sc = {'world': 'dlis_logical', 'model': model, 'ops': gen_ops(rng, model), 'reuse_channels': rng.chance(0.35)}
+    if rng.chance(0.35):
+        # the caller builds ONE selector object per selection and hands it to every call that uses that selection (as the
+        # command line tools do for every frame array of every logical file); later calls often repeat an earlier selection
+        sc['reuse_selector'] = True
+        pops = [op for op in sc['ops'] if op[0] == 'populate']
+        for op in pops[1:]:
+            if rng.chance(0.5):
+                op[3] = rng.pick(pops)[3]
     if rng.chance(0.2):
         # a second logical index on another file is alive at the same time; [k, li, fi, slice] = populate that frame array of the
         # other file just before operation k of the history
@@ -207,6 +216,7 @@ def execute(scenario):
     op_shapes = []
     hist = {}          # (li, fi) -> list of ('full'|'partial', count)
     shared_sets = {}
+    shared_selectors = {}
     prev_failed = False
     prev_kind = None
     shadow = None
@@ -252,7 +262,16 @@ def execute(scenario):
         n = len(fr['rows'])
         names = [c['name'] for c in fr['channels']]
         indices = select(sl, n)
-        fs = make_slice(sl)
+        if scenario.get('reuse_selector') and sl is not None:
+            key_ = json.dumps(sl)
+            if key_ in shared_selectors:
+                res.probe('selector_object_reused')
+                if shared_selectors[key_][1] != n:
+                    res.probe('selector_reused_other_length')
+            fs = shared_selectors.setdefault(key_, (make_slice(sl), n))[0]
+            shared_selectors[key_] = (fs, n)
+        else:
+            fs = make_slice(sl)
         if indices is None:
             indices = fs.indices(n)
             ok = (len(indices) == min(sl[1], n) and all(b > a for a, b in zip(indices, indices[1:])) and (not indices or indices[0] == 0)
